@@ -9,7 +9,9 @@ EXTENDS Naturals, Sequences, FiniteSets, TLC
 
 CONSTANTS Measured       \* RTMR indices the event log has events for (the sample log: {0, 1, 2})
 
-VFaults == {"none", "qsigOtherKey", "poolB", "wrongCN", "bindWrongHash", "qeSignerForeign", "revokedLeaf"}
+VFaults == {"none", "qsigOtherKey", "poolB", "wrongCN", "bindWrongHash", "qeSignerForeign", "revokedLeaf", "intelNilPool", "intelEmptyPool"}
+\*   intel*: the genuine sample quote (Intel's chain) with no pool given (the embedded Intel root applies) / with an empty pool (nothing is trusted)
+Logs == {"sample", "empty", "nil"}                  \* the event log handed in: the sample log, zero bytes, nil
 Policies == {"ok", "nonceDiffers", "mrTdDiffers", "rtmrExpectDiffers", "minQeAbove", "minTeeLaterAbove"}
 \*   minTeeLaterAbove: the TEE_TCB_SVN minimum is below the quote in an earlier component and above it in a later one
 Priors == {"none", "sameOpts"}   \* sameOpts: the same options value served a successful call on the genuine quote just before
@@ -19,7 +21,7 @@ Loaders == {"grub", "unsupported"}                \* extract.Opts.Loader: GRUB (
 CrlFetches == {"ok", "pckCrlFails", "rootCrlFails"}   \* outcome of the CRL downloads (only requested at level 2)
 
 RegOf(f) == CASE f = "r0" -> 0 [] f = "r1" -> 1 [] f = "r2" -> 2 [] f = "r3" -> 3 [] OTHER -> 9
-VerifyOk(v, lvl, cf) == /\ (v = "none" \/ (v = "revokedLeaf" /\ lvl < 2))      \* a revoked leaf is only visible with revocation checking
+VerifyOk(v, lvl, cf) == /\ (v \in {"none", "intelNilPool"} \/ (v = "revokedLeaf" /\ lvl < 2))      \* a revoked leaf is only visible with revocation checking
                         /\ (lvl = 2 => cf = "ok")                                \* an unavailable CRL fails verification: no "fail open"
 PolicyOk(p) == p = "ok"
 ReplayOk(f) == f = "none" \/ RegOf(f) \notin Measured
@@ -27,21 +29,26 @@ ReplayOk(f) == f = "none" \/ RegOf(f) \notin Measured
 \* C18
 MayReturnState(v, p, f, lvl, cf) == VerifyOk(v, lvl, cf) /\ PolicyOk(p) /\ ReplayOk(f)     \* whatever the loader option
 
-VARIABLES v, p, f, lvl, ld, cf, prior, pc, result
-vars == <<v, p, f, lvl, ld, cf, prior, pc, result>>
+VARIABLES v, p, f, lvl, ld, cf, prior, lg, pc, result
+vars == <<v, p, f, lvl, ld, cf, prior, lg, pc, result>>
 Init == /\ v \in VFaults /\ p \in Policies /\ f \in Flips /\ lvl \in Levels /\ ld \in Loaders /\ cf \in CrlFetches
-        /\ prior \in Priors /\ (cf # "ok" => lvl = 2) /\ pc = (IF prior = "none" THEN "verify" ELSE "prior") /\ result = "none"
+        /\ prior \in Priors /\ lg \in Logs /\ (lg # "sample" => f = "none" /\ cf = "ok" /\ prior = "none")
+        /\ (v \in {"intelNilPool", "intelEmptyPool"} => lvl = 0 /\ f = "none" /\ cf = "ok" /\ prior = "none")     \* no collateral for the sample platform offline; its registers cannot be altered without re-signing
+        /\ (cf # "ok" => lvl = 2) /\ pc = (IF prior = "none" THEN "verify" ELSE "prior") /\ result = "none"
 \* the earlier call leaves nothing behind in the options value: each call extracts its own register bank
-PriorCall == pc = "prior" /\ pc' = "verify" /\ UNCHANGED <<v, p, f, lvl, ld, cf, prior, result>>
+PriorCall == pc = "prior" /\ pc' = "verify" /\ UNCHANGED <<v, p, f, lvl, ld, cf, prior, lg, result>>
 Fail == result' = "error" /\ pc' = "done"
-VerifyGate == /\ pc = "verify" /\ (IF VerifyOk(v, lvl, cf) THEN pc' = "policy" /\ result' = result ELSE Fail) /\ UNCHANGED <<v, p, f, lvl, ld, cf, prior>>
-PolicyGate == /\ pc = "policy" /\ (IF PolicyOk(p) THEN pc' = "bank" /\ result' = result ELSE Fail) /\ UNCHANGED <<v, p, f, lvl, ld, cf, prior>>
-ExtractBank == /\ pc = "bank" /\ pc' = "replay" /\ UNCHANGED <<v, p, f, lvl, ld, cf, prior, result>>     \* RTMR i -> register i, all four registers
-Replay == /\ pc = "replay" /\ (IF ReplayOk(f) THEN result' = "state" /\ pc' = "done" ELSE Fail) /\ UNCHANGED <<v, p, f, lvl, ld, cf, prior>>
+VerifyGate == /\ pc = "verify" /\ (IF VerifyOk(v, lvl, cf) THEN pc' = "policy" /\ result' = result ELSE Fail) /\ UNCHANGED <<v, p, f, lvl, ld, cf, prior, lg>>
+PolicyGate == /\ pc = "policy" /\ (IF PolicyOk(p) THEN pc' = "bank" /\ result' = result ELSE Fail) /\ UNCHANGED <<v, p, f, lvl, ld, cf, prior, lg>>
+ExtractBank == /\ pc = "bank" /\ pc' = "replay" /\ UNCHANGED <<v, p, f, lvl, ld, cf, prior, lg, result>>     \* RTMR i -> register i, all four registers
+\* without events there is nothing to replay: what the extraction then returns (a state, an error, or both) is the event-log library's business,
+\* but it happens behind both gates like everything else
+Replay == /\ pc = "replay" /\ (IF lg # "sample" THEN result' \in {"state", "error", "both"} /\ pc' = "done"
+                               ELSE IF ReplayOk(f) THEN result' = "state" /\ pc' = "done" ELSE Fail) /\ UNCHANGED <<v, p, f, lvl, ld, cf, prior, lg>>
 Next == PriorCall \/ VerifyGate \/ PolicyGate \/ ExtractBank \/ Replay
 Spec == Init /\ [][Next]_vars
 
-TypeOK == result \in {"none", "state", "error"}
-StateOnlyBehindBothGates == result = "state" => MayReturnState(v, p, f, lvl, cf)
-ErrorOtherwise == pc = "done" => (result = "state" <=> MayReturnState(v, p, f, lvl, cf))
+TypeOK == result \in {"none", "state", "error", "both"}
+StateOnlyBehindBothGates == result \in {"state", "both"} => MayReturnState(v, p, f, lvl, cf)
+ErrorOtherwise == (pc = "done" /\ lg = "sample") => (result = "state" <=> MayReturnState(v, p, f, lvl, cf))
 =================================================================================
